@@ -121,7 +121,35 @@ def cfg_str(cfg):
 
 
 # ---------------------------------------------------------------------------------- solving
-def prove(pc, goal, timeout_ms, cross=False, light=False):
+def refute_by_sampling(pc, g, inputs, tries=10, seed=0):
+    """counter-model search under ADDED hypotheses: the geometry inputs (corners, cell sizes, cell counts) are pinned to
+    sampled small values, which turns the nonlinear path condition into an easy one.  A model found this way is a
+    model of pc and not(goal) - sound as a refutation; finding none says nothing."""
+    geo = [(nm, kd) for nm, kd in (inputs or {}).items() if isinstance(kd, str) and kd in ('float', 'int')
+           and re.search(r'(pmin|cell|edge|_n\d|^n\d|_tf$)', nm)]
+    if not geo:
+        return None
+    rnd = random.Random(4242 + seed)
+    for t in range(tries):
+        so = z3.Solver()
+        so.set('timeout', 2500)
+        so.add(*pc)
+        so.add(z3.Not(g))
+        for nm, kd in geo:
+            if kd == 'int':
+                so.add(z3.Int(nm) == rnd.choice([1, 2, 3, 4, 5]))
+            elif 'cell' in nm or 'edge' in nm:
+                so.add(z3.Real(nm) == z3.RealVal(rnd.choice(['1', '2', '1/2', '3', '5/4'])))
+            elif nm.endswith('_tf'):
+                so.add(z3.Real(nm) == 0)
+            else:
+                so.add(z3.Real(nm) == z3.RealVal(rnd.choice(['0', '-1', '1', '-3', '1/2', '2'])))
+        if so.check() == z3.sat:
+            return so
+    return None
+
+
+def prove(pc, goal, timeout_ms, cross=False, light=False, inputs=None):
     """pc => goal ?  returns (status, backend, seconds, model|None, reason)"""
     t0 = time.time()
     if isinstance(goal, bool) and goal:
@@ -139,6 +167,9 @@ def prove(pc, goal, timeout_ms, cross=False, light=False):
         status, backend, model, reason = 'failed', 'z3-5.1', so.model(), ''
     else:
         status, backend, model, reason = 'undecided', 'z3-5.1', None, so.reason_unknown()
+        sr = refute_by_sampling(pc, g, inputs)
+        if sr is not None:
+            return 'failed', 'z3-5.1(sampled geometry)', time.time() - t0, sr.model(), ''
         if light:
             return status, backend, dt, model, reason
         # a time-out under load must not flip a verdict: one more one-shot attempt with a 4x budget and another seed
@@ -443,12 +474,12 @@ def run_task(args):
         for ob in obs:
             if mutant:
                 # negative control: one refuted obligation is all that is asked for (short budget, no second opinions)
-                status, backend, secs, model, reason = prove(ob['pc'], ob['goal'], TIMEOUT_MS[tier] if mod.MUTANTS[mutant].get('expect') else min(8000, TIMEOUT_MS[tier]), light=True)
+                status, backend, secs, model, reason = prove(ob['pc'], ob['goal'], TIMEOUT_MS[tier] if mod.MUTANTS[mutant].get('expect') else min(8000, TIMEOUT_MS[tier]), light=True, inputs=ob.get('inputs'))
             else:
                 # second efforts (4x retry, external solvers) are bounded per task: a source change that makes many
                 # obligations hard must not stall the check (they stay 'undecided', never 'violated')
                 heavy_left = HEAVY_BUDGET_S[tier] - res.get('heavy_seconds', 0.0)
-                status, backend, secs, model, reason = prove(ob['pc'], ob['goal'], TIMEOUT_MS[tier], cross=(tier == 'thorough'), light=heavy_left <= 0)
+                status, backend, secs, model, reason = prove(ob['pc'], ob['goal'], TIMEOUT_MS[tier], cross=(tier == 'thorough'), light=heavy_left <= 0, inputs=ob.get('inputs'))
                 if secs > TIMEOUT_MS[tier] / 1000.0:
                     res['heavy_seconds'] = res.get('heavy_seconds', 0.0) + secs - TIMEOUT_MS[tier] / 1000.0
             rec = {k: ob[k] for k in ('key', 'id', 'config', 'kind', 'text')}
